@@ -35,6 +35,8 @@ def tableOf : List (List String) → Table
   | [] => []
   | ["FS", rel, "d"] :: rest => (hexOf rel, FsResult.dir) :: tableOf rest
   | ["FS", rel, "f", id] :: rest => (hexOf rel, FsResult.file (natOf id)) :: tableOf rest
+  -- a twin (same size, time and base name as file `_of`, other content): a file like any other
+  | ["FS", rel, "f", id, _of] :: rest => (hexOf rel, FsResult.file (natOf id)) :: tableOf rest
   | _ :: rest => tableOf rest
 
 def fsOf (t : Table) (p : Bytes) : FsResult :=
@@ -74,6 +76,7 @@ def session (args : List String) (lines : List (List String)) : List String :=
   let one : List String → String
     | ["FS", _, "d"] => "fs"
     | ["FS", _, "f", _] => "fs"
+    | ["FS", _, "f", _, _] => "fs"
     | ["OUT", _, _] => "out"
     | ["REQ", m, p, inm] =>
       let up := hexOf p
